@@ -740,6 +740,14 @@ func c16CompareTable(ti int, lines []string, t *c16CSVTable, warns map[int][]c16
 					if c16DeltaRe.MatchString(toks[i].s) {
 						return kit.Failf("bs-delta-presence", "table %d %s column %d: csv has no comparison, text has %q%s", ti, what, e, toks[i].s, ctx()), nil
 					}
+					// A second centre / "±" / range between the rules of this key
+					// column is a value the CSV does not have in this column
+					// (e.g. the next column's cell written too far left).
+					for _, tk := range toks[i:] {
+						if tk.s == "±" || c16NumRe.MatchString(tk.s) {
+							return kit.Failf("bs-cell-surplus-value", "table %d %s column %d: csv has one cell (%s ± %s, no comparison) in this key column, the text has the further value %q between its rules%s", ti, what, e, c.center, c.ci, tk.s, ctx()), nil
+						}
+					}
 					return nil, c16Unp("text-cell-tail")
 				}
 				continue
